@@ -531,8 +531,18 @@ func (il *inliner) prepare(files []*ast.File) {
 	}
 	il.cand = map[*types.Func]bool{}
 	for fn, fd := range il.decls {
-		if fn.Exported() || asValue[fn] || strings.HasPrefix(fn.Name(), "init") || fn.Name() == "main" || il.known[funcKeyOf(il.pkgRel, fd)] {
+		if asValue[fn] || strings.HasPrefix(fn.Name(), "init") || fn.Name() == "main" || il.known[funcKeyOf(il.pkgRel, fd)] {
 			continue
+		}
+		if fn.Exported() {
+			// a new exported accessor / predicate whose whole body is one return of an expression (IsExited, Len, ...)
+			// is expanded at its uses inside the package; the declaration stays
+			if len(fd.Body.List) != 1 {
+				continue
+			}
+			if _, isRet := fd.Body.List[0].(*ast.ReturnStmt); !isRet {
+				continue
+			}
 		}
 		if fd.Type.TypeParams != nil {
 			continue
@@ -547,10 +557,20 @@ func (il *inliner) prepare(files []*ast.File) {
 			}
 		}
 		bad := false
+		topDefer := map[*ast.DeferStmt]bool{}
+		for _, s := range fd.Body.List {
+			if d, ok := s.(*ast.DeferStmt); ok && isUnlockCall(d.Call) {
+				topDefer[d] = true
+			}
+		}
 		ast.Inspect(fd.Body, func(n ast.Node) bool {
 			switch x := n.(type) {
 			case *ast.DeferStmt:
-				bad = true
+				// a mutex release deferred at the top level of the body is run by the expansion before every exit
+				// that follows it; any other defer keeps the helper a call
+				if !topDefer[x] {
+					bad = true
+				}
 			case *ast.CallExpr:
 				if id, ok := x.Fun.(*ast.Ident); ok {
 					if b, ok := il.info.Uses[id].(*types.Builtin); ok && b.Name() == "recover" {
@@ -790,8 +810,8 @@ func exprsOf(s ast.Stmt) []*ast.Expr {
 }
 
 func (il *inliner) findCall(e *ast.Expr) (slot *ast.Expr, call *ast.CallExpr, fn *types.Func) {
-	var walk func(p *ast.Expr) bool
-	walk = func(p *ast.Expr) bool {
+	var walk func(p *ast.Expr, simpleOnly bool) bool
+	walk = func(p *ast.Expr, simpleOnly bool) bool {
 		switch x := (*p).(type) {
 		case nil:
 			return false
@@ -799,16 +819,21 @@ func (il *inliner) findCall(e *ast.Expr) (slot *ast.Expr, call *ast.CallExpr, fn
 			return false
 		case *ast.CallExpr:
 			if sel, ok := x.Fun.(*ast.SelectorExpr); ok {
-				if walk(&sel.X) {
+				if walk(&sel.X, simpleOnly) {
 					return true
 				}
 			}
 			for i := range x.Args {
-				if walk(&x.Args[i]) {
+				if walk(&x.Args[i], simpleOnly) {
 					return true
 				}
 			}
 			if g := il.calleeOf(x); g != nil && g.Pkg() == il.pkg && il.cand[g] && il.decls[g] != nil && il.decls[g] != il.curFunc {
+				if simpleOnly {
+					if _, ok := il.simpleReturn(x, g); !ok {
+						return false
+					}
+				}
 				key := il.siteKey(g)
 				// a callee whose own body was rewritten in this round holds fresh syntax without type information:
 				// it is expanded in the next round, after the package has been parsed and checked again
@@ -820,36 +845,37 @@ func (il *inliner) findCall(e *ast.Expr) (slot *ast.Expr, call *ast.CallExpr, fn
 			}
 			return false
 		case *ast.BinaryExpr:
-			if walk(&x.X) {
+			if walk(&x.X, simpleOnly) {
 				return true
 			}
 			if x.Op == token.LAND || x.Op == token.LOR {
-				return false
+				// behind a short-circuit operator only a pure single-expression callee may be substituted
+				return walk(&x.Y, true)
 			}
-			return walk(&x.Y)
+			return walk(&x.Y, simpleOnly)
 		case *ast.UnaryExpr:
-			return walk(&x.X)
+			return walk(&x.X, simpleOnly)
 		case *ast.ParenExpr:
-			return walk(&x.X)
+			return walk(&x.X, simpleOnly)
 		case *ast.StarExpr:
-			return walk(&x.X)
+			return walk(&x.X, simpleOnly)
 		case *ast.SelectorExpr:
-			return walk(&x.X)
+			return walk(&x.X, simpleOnly)
 		case *ast.IndexExpr:
-			return walk(&x.X) || walk(&x.Index)
+			return walk(&x.X, simpleOnly) || walk(&x.Index, simpleOnly)
 		case *ast.SliceExpr:
-			return walk(&x.X) || walk(&x.Low) || walk(&x.High) || walk(&x.Max)
+			return walk(&x.X, simpleOnly) || walk(&x.Low, simpleOnly) || walk(&x.High, simpleOnly) || walk(&x.Max, simpleOnly)
 		case *ast.TypeAssertExpr:
-			return walk(&x.X)
+			return walk(&x.X, simpleOnly)
 		case *ast.CompositeLit:
 			for i := range x.Elts {
 				if kv, ok := x.Elts[i].(*ast.KeyValueExpr); ok {
-					if walk(&kv.Value) {
+					if walk(&kv.Value, simpleOnly) {
 						return true
 					}
 					continue
 				}
-				if walk(&x.Elts[i]) {
+				if walk(&x.Elts[i], simpleOnly) {
 					return true
 				}
 			}
@@ -857,7 +883,7 @@ func (il *inliner) findCall(e *ast.Expr) (slot *ast.Expr, call *ast.CallExpr, fn
 		}
 		return false
 	}
-	walk(e)
+	walk(e, false)
 	return
 }
 
@@ -913,12 +939,12 @@ func (il *inliner) inlineIn(s ast.Stmt) ([]ast.Stmt, bool) {
 		direct := *slot == ast.Expr(call)
 		switch x := s.(type) {
 		case *ast.AssignStmt:
-			if direct && len(x.Rhs) == 1 && (len(exprs) == len(x.Lhs) || len(exprs) == 1) {
+			if direct && len(x.Rhs) == 1 && slot == &x.Rhs[0] && (len(exprs) == len(x.Lhs) || len(exprs) == 1) {
 				x.Rhs = exprs
 				return []ast.Stmt{s}, true
 			}
 		case *ast.ReturnStmt:
-			if direct && len(x.Results) == 1 {
+			if direct && len(x.Results) == 1 && slot == &x.Results[0] {
 				x.Results = exprs
 				return []ast.Stmt{s}, true
 			}
@@ -1307,11 +1333,15 @@ func (il *inliner) expand(call *ast.CallExpr, fn *types.Func, id int) (*ast.Bloc
 	// names defined inside the callee, and parameters the callee writes to or takes the address of
 	definedInCallee := map[string]bool{}
 	written := map[types.Object]bool{}
+	usedInCallee := map[types.Object]bool{}
 	ast.Inspect(fd.Body, func(n ast.Node) bool {
 		switch x := n.(type) {
 		case *ast.Ident:
 			if il.info.Defs[x] != nil {
 				definedInCallee[x.Name] = true
+			}
+			if o := il.info.Uses[x]; o != nil {
+				usedInCallee[o] = true
 			}
 		case *ast.AssignStmt:
 			for _, l := range x.Lhs {
@@ -1359,7 +1389,7 @@ func (il *inliner) expand(call *ast.CallExpr, fn *types.Func, id int) (*ast.Bloc
 			// an argument that is a plain local identifier of exactly the parameter's type, bound to a parameter the
 			// callee never writes: use the caller's variable itself (no copy that would hide the data flow)
 			if aid, ok := call.Args[pi].(*ast.Ident); ok && nm != nil && nm.Name != "_" {
-				if pobj := il.info.Defs[nm]; pobj != nil && !written[pobj] && !definedInCallee[aid.Name] {
+				if pobj := il.info.Defs[nm]; pobj != nil && !written[pobj] && !definedInCallee[aid.Name] && usedInCallee[pobj] {
 					if aobj, ok := il.info.Uses[aid].(*types.Var); ok && !aobj.IsField() && aobj.Parent() != il.pkg.Scope() && types.Identical(aobj.Type(), sig.Params().At(pi).Type()) {
 						rename[pobj] = aid.Name
 						pi++
@@ -1485,6 +1515,14 @@ func (il *inliner) expand(call *ast.CallExpr, fn *types.Func, id int) (*ast.Bloc
 	label := prefix + "L"
 	usedLabel := false
 	okRet := true
+	var activeDefers []*ast.CallExpr // top-level deferred unlocks seen so far, in order
+	runDefers := func() []ast.Stmt {
+		var out []ast.Stmt
+		for i := len(activeDefers) - 1; i >= 0; i-- {
+			out = append(out, &ast.ExprStmt{X: cloneNode(activeDefers[i]).(ast.Expr)})
+		}
+		return out
+	}
 	retStmts := func(r *ast.ReturnStmt, isTail bool) []ast.Stmt {
 		var out []ast.Stmt
 		switch {
@@ -1498,6 +1536,7 @@ func (il *inliner) expand(call *ast.CallExpr, fn *types.Func, id int) (*ast.Bloc
 		default:
 			okRet = false
 		}
+		out = append(out, runDefers()...)
 		if !isTail {
 			usedLabel = true
 			out = append(out, &ast.BranchStmt{Tok: token.BREAK, Label: ast.NewIdent(label)})
@@ -1548,7 +1587,22 @@ func (il *inliner) expand(call *ast.CallExpr, fn *types.Func, id int) (*ast.Bloc
 		}
 		return out
 	}
-	body.List = rewriteReturns(body.List, true)
+	{
+		var out []ast.Stmt
+		endsInReturn := false
+		for i, s := range body.List {
+			if d, ok := s.(*ast.DeferStmt); ok {
+				activeDefers = append(activeDefers, d.Call)
+				continue
+			}
+			_, endsInReturn = s.(*ast.ReturnStmt)
+			out = append(out, rewriteStmt(s, i == len(body.List)-1)...)
+		}
+		if !endsInReturn {
+			out = append(out, runDefers()...) // falling off the end
+		}
+		body.List = out
+	}
 	if !okRet {
 		return nil, nil, false
 	}
@@ -1958,4 +2012,17 @@ func pruneUnusedImports(path string, files []*pkgFile, i int, imp types.Importer
 		return
 	}
 	files[i].content = buf.Bytes()
+}
+
+
+// isUnlockCall: x.Unlock() / x.RUnlock() - the only deferred calls the expansion replays (a panic between lock and
+// unlock behaves differently in the expanded form; that difference is irrelevant to the rules, which look at
+// non-panicking paths, except for the one rule about explicitly released locks, which skips replayed unlocks of
+// helpers because those helpers never contain user code when they qualify).
+func isUnlockCall(c *ast.CallExpr) bool {
+	sel, ok := c.Fun.(*ast.SelectorExpr)
+	if !ok || len(c.Args) != 0 {
+		return false
+	}
+	return sel.Sel.Name == "Unlock" || sel.Sel.Name == "RUnlock"
 }
